@@ -63,6 +63,46 @@ short = {
  "C20-1":"`DisableAutoResponse` before the publish — a synchronous publish error is neither finished nor requeued",
  "C20-2":"`ReadSlice` instead of `ReadBytes` — records of 4096+ bytes are cut and the tool exits",
  "C20-3":"nsq_to_http all-endpoints mode returns only the last endpoint's result",
+ "C01-4":"topic pump skips rebuilding its channel snapshot when the count is unchanged - a channel deleted and another created in between never receives messages",
+ "C02-4":"client pump, leaving on a write error, requeues everything its consumer holds - the consumer is still there and answers: two holders of one message",
+ "C03-4":"`RDY` lower bound dropped - an argument >= 2^63 wraps negative and is accepted",
+ "C04-4":"`inFlightPqueue.Push` skips the sift-up when the array grows",
+ "C05-4":"`GetMetadata` leaves out exiting topics/channels - the metadata written by `Exit` is empty",
+ "C06-4":"dirlock keeps only the integer descriptor - the garbage collector closes the file and drops the lock",
+ "C07-4":"`SendMessage` returns its buffer to the pool twice on the error path",
+ "C08-4":"`DeleteExistingTopic` unlinks the topic before deleting it - a publish re-creates the topic on the old disk files",
+ "C09-4":"heartbeat / msg-timeout range checks after the conversion to a Duration - huge values wrap into range",
+ "C10-4":"binary `/mpub`: max-msg-size and max-body-size handed to `readMPUB` in the wrong order",
+ "C11-4":"`AUTH` dispatched before the TLS gate",
+ "C12-4":"`guid.Hex` takes byte 2 from the wrong shift",
+ "C13-4":"`Topic.PutMessage` counts before it stores - a failed disk write is counted",
+ "C14-4":"`FilterByActive` as a switch - a tombstoned producer past its lifetime skips the inactivity test",
+ "C15-4":"`/debug` reads producers through an accessor that read-locks again - deadlocks against a waiting writer",
+ "C16-4":"`readResponseBounded` does one `Read` instead of `ReadFull` - a segmented reply is truncated",
+ "C17-4":"`/config` CIDR check lets an unparsable (zoned IPv6) remote address through",
+ "C18-4":"stats URL built without query escaping - `#ephemeral` names are cut at the `#`",
+ "C19-4":"`<REV>` collision check removes the same-named file in the work dir - an unrelated file is deleted",
+ "C20-4":"`--require-json-value` with a numeric-looking argument no longer matches the same text as a JSON string - the message is dropped and FINed",
+ "C01-5":"`writeMessageToBackend` returns the pooled buffer before `Put` has consumed it",
+ "C02-5":"`Attempts++` moved into `pushInFlightMessage` - every TOUCH counts as an attempt",
+ "C03-5":"`SetReadyCount` wakes the pump only when RDY grows or becomes 0 - a decrease to n > 0 is not noticed",
+ "C04-5":"scan loop refreshes its channel list only when the number of channels changed",
+ "C05-5":"`LoadMetadata` starts the topic pump before the channels are re-created - the topic's backlog goes to the first channel only",
+ "C06-5":"`PersistMetadata` removes `nsqd.dat` before renaming the new file over it",
+ "C07-5":"chunked `/pub` keeps the pooled read buffer as the message body",
+ "C08-5":"`RemoveClient` runs on an exiting channel - the late clean-up of a deleted ephemeral channel's consumer deletes the re-created channel",
+ "C09-5":"`output_buffer_timeout` range check after the conversion to a Duration - huge values wrap into range",
+ "C10-5":"pause vs unpause decided from path *and query* - any query containing `unpause` turns a pause into an unpause",
+ "C11-5":"`State.IsExpired` inverted - a grant is never re-fetched after its TTL",
+ "C12-5":"sequence mask widened and node id OR-ed in after the duplicate guard - ids repeat above 4096 per ms",
+ "C13-5":"`Channel.PutMessage` counts before it stores - a failed disk write is counted",
+ "C14-5":"fatal protocol error returns from `IOLoop` without the clean-up - the peer's registrations stay",
+ "C15-5":"IDENTIFY body can set `remote_address`, which now is the peer id - one connection can act on another's registrations",
+ "C16-5":"a read timeout no longer closes the lookupd connection - a late IDENTIFY reply leaves it half initialised for ever",
+ "C17-5":"admin identity falls back to the basic-auth user name when the ACL header is absent",
+ "C18-5":"`GetNSQDProducers` continues after a failed `/info` - two errors per dead node, phantom node entries",
+ "C19-5":"gzip `Sync()` overwrites the fsync error with the (nil) error of `NewWriterLevel`",
+ "C20-5":"to_nsq drops the publish error of a final record without a trailing delimiter",
 }
 print("| seed | change (one line) | needs | reported by |")
 print("|---|---|---|---|")
